@@ -167,8 +167,9 @@ def compare_path_filenames(F):
     inst = AF + "ComparePathFilenames#projection"
     req = "the order on paths is IsEqualCaseInsensitive applied to the same projection (GetFilename) of both paths, in argument order"
     if len(rets) == 1:
-        t = fn.term(rets[0]["value"])
-        want = ("call", SU + "IsEqualCaseInsensitive", None, (("call", XF + "GetFilename", None, (a,)), ("call", XF + "GetFilename", None, (b,))))
+        from .c05 import alias_defs, resolve
+        t = resolve(fn.term(rets[0]["value"]), alias_defs(fn))
+        want = ("call", SU + "IsEqualCaseInsensitive", None, (F.call_value(XF + "GetFilename", None, (a,)), F.call_value(XF + "GetFilename", None, (b,))))
         if t == want:
             return [ok("R-SIB", inst, fn.loc(rets[0]["id"]), fn.qn, req, fmt_term(t))]
         return [bad("R-SIB", inst, fn.loc(rets[0]["id"]), fn.qn, req, "returns %s" % fmt_term(t))]
